@@ -79,7 +79,7 @@ __CPROVER_requires(self->data_->delta == (self->data_->back - self->data_->front
 __CPROVER_requires(value >= self->data_->front && value < self->data_->back)
 __CPROVER_assigns()
 /* the function's own CELER_ENSURE: a valid bin, so that callers may read points [bin] and [bin+1] */
-__CPROVER_ensures(__CPROVER_return_value + 1 < self->data_->size)
+__CPROVER_ensures(__CPROVER_return_value < self->data_->size - 1)   /* i.e. bin + 1 < size WITHOUT wrap-around (bin == SIZE_MAX would satisfy the literal form) */
 {""" + pc.body + """}
 void h_ug_find(void)
 {
